@@ -57,6 +57,7 @@ type Link struct {
 	StartOff  int64 // offset of the first stream byte served on this link
 	Sent      int64 // stream bytes written on this link
 	Header    int64 // bytes written before the stream (reply, $n, RDB)
+	Base      int64 // bytes written on the connection before the head (replies to AUTH / REPLCONF)
 	Acks      []Ack
 	Dead      bool
 	OpenedAt  time.Duration
@@ -216,6 +217,7 @@ func (m *Master) special(sv *Server, cn *ConnState, args [][]byte) bool {
 			out := chunk
 			if first {
 				out = append(append([]byte(nil), head...), chunk...)
+				l.Base = cn.C.WriteSum // handshake replies written on this connection before the head
 				l.Header = int64(len(head))
 				first = false
 			}
